@@ -21,8 +21,9 @@ Reads `<repo>/pysmt/parsing.py` and `<repo>/pysmt/printers.py` with `ast` only a
                 nary raw spelling   `return self.walk_nary(formula, raw)`  (spelling = raw.strip())
                 custom hash         any other body (hand-modelled in Impl/HR.lean); hash of its AST
               (class-level aliases `walk_bv_and = walk_and` are followed)
+  simpleSymbolRegex, quoteKeywords   `_simple_symbol_prog` and `_keywords` of pysmt/utils.py (which names `quote` leaves bare)
   hashes      sha1 (16 hex digits) of the AST of every method of parsing.py (all classes; `HRLexer.__init__` without its two
-              tables) and of the helper methods of `HRPrinter`, so that an edit of a hand-modelled body changes the table.
+              tables) and of the helper methods of `HRPrinter`, of `utils.quote`, so that an edit of a hand-modelled body changes the table.
 
 Anything the translator cannot express raises Unsupported (reported by the runner as a broken obligation).
 """
@@ -269,9 +270,38 @@ def translate_printer(repo):
     return printer, hashes
 
 
+def translate_quote(repo):
+    """pysmt/utils.py: the regex of `_simple_symbol_prog`, the set `_keywords`, the hash of `quote` (the HR printer quotes
+    a symbol name with `quote(name, style="'")`)"""
+    path = os.path.join(repo, "pysmt", "utils.py")
+    tree = ast.parse(open(path).read())
+    regex, keywords, qhash = None, None, None
+    for st in tree.body:
+        if isinstance(st, ast.Assign) and len(st.targets) == 1 and isinstance(st.targets[0], ast.Name):
+            nm, v = st.targets[0].id, st.value
+            if nm == "_simple_symbol_prog":
+                if not (isinstance(v, ast.Call) and _attr_chain(v.func) == ["re", "compile"] and len(v.args) == 1
+                        and isinstance(v.args[0], ast.Constant) and isinstance(v.args[0].value, str)):
+                    raise Unsupported("_simple_symbol_prog is not re.compile(<literal>)")
+                regex = v.args[0].value
+            elif nm == "_keywords":
+                if not (isinstance(v, ast.Call) and isinstance(v.func, ast.Name) and v.func.id == "set" and len(v.args) == 1
+                        and isinstance(v.args[0], ast.List)
+                        and all(isinstance(e, ast.Constant) and isinstance(e.value, str) for e in v.args[0].elts)):
+                    raise Unsupported("_keywords is not set([<string literals>])")
+                keywords = [e.value for e in v.args[0].elts]
+        elif isinstance(st, ast.FunctionDef) and st.name == "quote":
+            qhash = ast_hash(st)
+    if regex is None or keywords is None or qhash is None:
+        raise Unsupported("utils.py: _simple_symbol_prog / _keywords / quote not found")
+    return regex, keywords, qhash
+
+
 def generate(repo):
     tokens, idents, functional, h1 = translate_parser(repo)
     printer, h2 = translate_printer(repo)
+    regex, keywords, qhash = translate_quote(repo)
+    h2 = h2 + [("utils.quote", qhash)]
     L = []
     L.append("/- GENERATED by tools/gen_hrops.py from pysmt/parsing.py and pysmt/printers.py -- do not edit.\n"
              "   Regenerated on every `./check C09`; a committed copy is the baseline. -/\n"
@@ -309,6 +339,9 @@ def generate(repo):
     L.append("def printer : List (Op × Form) := [")
     L.append(",\n".join("  (.%s, %s)" % (k, v) for k, v in printer))
     L.append("]\n")
+    L.append("/-- `pysmt/utils.py`: the names `quote` prints bare are the ones matching `_simple_symbol_prog` that are not `_keywords` -/")
+    L.append("def simpleSymbolRegex : String := %s" % lean_str(regex))
+    L.append("def quoteKeywords : List String := [%s]\n" % ", ".join(lean_str(k) for k in keywords))
     L.append("/-- sha1 (first 16 hex digits) of the AST of every method of parsing.py and of the helpers of `HRPrinter` -/")
     L.append("def hashes : List (String × String) := [")
     L.append(",\n".join("  (%s, %s)" % (lean_str(k), lean_str(v)) for k, v in h1 + h2))
